@@ -273,8 +273,7 @@ def rule_state(ctx, px):
     ctx.floor(R, n, 4)
 
 
-def rule_memo(ctx, px):
-    R = "R-C10-MEMO"
+def rule_memo(ctx, px, R="R-C10-MEMO"):
     ctx.rule(
         R,
         "every memoising decorator in the package (lru_cache / cached_property) wraps a callable whose result is a "
